@@ -21,7 +21,11 @@ def _nontrivial(kinds):
 PROPS = {"C09": dict(
     module="Proofs.Properties.C09",
     theorems=[
+        "Zrnt.Proofs.C09.inv_structure",
+        "Zrnt.Proofs.C09.inv_weights",
+        "Zrnt.Proofs.C09.weights_are_subtree_sums",
         "Zrnt.Proofs.C09.weights_propagate",
+        "Zrnt.Proofs.C09.score_changes_exact",
     ],
     modes=[dict(name="fc09", stateful=True, max_shrinks=4,
                 nontrivial=_nontrivial(("head", "findhead", "att", "block", "slot", "justify", "pin")))],
